@@ -1037,4 +1037,234 @@ example : let cfg := { demoCfg true true with hasOnset := false }
 example : ((splitFrame (demoCfg true true) ((frame (demoCfg true true)
     [⟨some 8, [['E']], []⟩, ⟨some 24, [['R']], []⟩]).map (·.2))).map (·.1)).Nodup := by decide
 
+/-! ### the column label with its type -/
+
+/-- `labels_typed`: the column label of a cell issue is the label OBJECT of the column its text sits in — the integer
+`n` for a file read without header (never `""`, never the string `"n"`), the name otherwise; a key-missing issue
+carries the categorical column's name; every other issue carries no column at all. -/
+theorem labels_typed (cfg : Cfg) (T : List Row) (out : List Issue) (h : validate cfg T = .ok out) :
+    ∀ i ∈ out,
+      match i.src with
+      | .cell _ c => ∃ name, cfg.columns[c]? = some name ∧ i.label cfg = some (labelOf cfg c name)
+      | .key _ c => ∃ name keys, cfg.catCols[c]? = some (name, keys) ∧ i.label cfg = some (.name name)
+      | _ => i.label cfg = none := by
+  intro i hi
+  have hl := labels cfg T out h i hi
+  unfold WellLabelled at hl
+  split at hl
+  · simp [Issue.label, hl.2, *]
+  · simp [Issue.label, hl.2, *]
+  · simp [Issue.label, hl.2, *]
+  · rename_i k c hs
+    obtain ⟨r, name, keys, v, _, h2, _, _, _, _, h7⟩ := hl
+    simp only [hs]
+    exact ⟨name, keys, h2, by simp [Issue.label, hs, h7]⟩
+  · rename_i p c hs
+    obtain ⟨k, r, name, _, h2, _, _, _, _, h7⟩ := hl
+    simp only [hs]
+    exact ⟨name, h2, by simp [Issue.label, hs, h7]⟩
+  · rename_i p hs
+    obtain ⟨k, r, _, _, _, h4⟩ := hl
+    simp [Issue.label, hs, h4]
+  · rename_i p hs
+    obtain ⟨k, _, _, h4⟩ := hl
+    simp [Issue.label, hs, h4]
+  · rename_i p hs
+    obtain ⟨k, _, _, h4⟩ := hl
+    simp [Issue.label, hs, h4]
+
+/-- `0`, `"0"` and `""` are different labels; a header-less first column is `0` -/
+example : labelOf { demoCfg true true with colIdx := [some 0] } 0 ['0'] = .idx 0 ∧
+    ColLabel.idx 0 ≠ .name ['0'] ∧ ColLabel.idx 0 ≠ .name [] := by decide
+
+/-! ### which label a merged time point's issue carries (finding C07-merged-row-label, characterised) -/
+
+/-- `","`-joined text of the run of equal times at the head of a (sorted) frame -/
+def runText : List (Int × Str × Nat) → Str
+  | [] => []
+  | [x] => x.2.1
+  | x :: y :: r => if x.1 = y.1 then x.2.1 ++ [','] ++ runText (y :: r) else x.2.1
+
+/-- `mergeF`, row by row: a row whose predecessor has the same time is blanked, any other row heads a run and gets
+the run's joined text; times and original rows stay -/
+def blankOr (prev : Option Int) : List (Int × Str × Nat) → List (Int × Str × Nat)
+  | [] => []
+  | x :: xs => (x.1, if prev = some x.1 then [] else runText (x :: xs), x.2.2) :: blankOr (some x.1) xs
+
+theorem mergeF_cons (x : Int × Str × Nat) (xs : List (Int × Str × Nat)) :
+    mergeF (x :: xs) = (x.1, runText (x :: xs), x.2.2) :: blankOr (some x.1) xs := by
+  induction xs generalizing x with
+  | nil => simp [mergeF, runText, blankOr]
+  | cons y r ih =>
+    unfold mergeF
+    rw [ih y]
+    by_cases h : x.1 = y.1
+    · simp [h, runText, blankOr]
+    · simp [h, runText, blankOr]
+
+theorem mergeF_eq_blankOr (l : List (Int × Str × Nat)) : mergeF l = blankOr none l := by
+  cases l with
+  | nil => rfl
+  | cons x xs => rw [mergeF_cons]; simp [blankOr]
+
+theorem runText_eq (x : Int × Str × Nat) (xs : List (Int × Str × Nat)) :
+    runText (x :: xs) = joinWith [','] (((x :: xs).takeWhile fun z => z.1 == x.1).map (·.2.1)) := by
+  induction xs generalizing x with
+  | nil => simp [runText, joinWith]
+  | cons y r ih =>
+    by_cases h : x.1 = y.1
+    · rw [show runText (x :: y :: r) = x.2.1 ++ [','] ++ runText (y :: r) by simp [runText, h], ih y]
+      simp only [h, List.takeWhile_cons, beq_self_eq_true, if_true, List.map_cons, joinWith]
+    · have h' : (y.1 == x.1) = false := by simp; exact fun e => h e.symm
+      simp [runText, h, List.takeWhile_cons, h', joinWith]
+
+/-- element `i` of `blankOr`: same time and original row as element `i` of the frame; a non-empty text only at the
+head of a run, and then the run's joined text -/
+theorem blankOr_get (prev : Option Int) (l : List (Int × Str × Nat)) (i : Nat) (x : Int × Str × Nat)
+    (h : (blankOr prev l)[i]? = some x) :
+    ∃ y, l[i]? = some y ∧ x.1 = y.1 ∧ x.2.2 = y.2.2 ∧
+      (x.2.1 ≠ [] → x.2.1 = runText (l.drop i) ∧
+        (match i with
+         | 0 => prev ≠ some y.1
+         | j + 1 => ∃ z, l[j]? = some z ∧ z.1 ≠ y.1)) := by
+  induction l generalizing prev i with
+  | nil => simp [blankOr] at h
+  | cons a as ih =>
+    cases i with
+    | zero =>
+      simp only [blankOr, List.getElem?_cons_zero, Option.some.injEq] at h
+      subst h
+      refine ⟨a, rfl, rfl, rfl, ?_⟩
+      intro hne
+      by_cases hp : prev = some a.1
+      · simp [hp] at hne
+      · simp [hp]
+    | succ j =>
+      simp only [blankOr, List.getElem?_cons_succ] at h
+      obtain ⟨y, h1, h2, h3, h4⟩ := ih (some a.1) j h
+      refine ⟨y, by simpa using h1, h2, h3, ?_⟩
+      intro hne
+      obtain ⟨h5, h6⟩ := h4 hne
+      refine ⟨by simpa using h5, ?_⟩
+      cases j with
+      | zero =>
+        simp only at h6
+        exact ⟨a, by simp, fun e => h6 (by rw [e])⟩
+      | succ j' =>
+        obtain ⟨z, hz, hzy⟩ := h6
+        exact ⟨z, by simpa using hz, hzy⟩
+
+theorem mem_pointPass_nonempty {cfg : Cfg} {inv : List Nat} {tf : List (Int × Str × Nat)} {i : Issue}
+    (h : i ∈ pointPass cfg inv tf) :
+    ∃ x ∈ tf, x.2.1 ≠ [] ∧ i.row = some x.2.2 ∧ i.text = x.2.1 := by
+  unfold pointPass at h
+  have hl : ∀ sp ∈ livePoints inv tf, ∃ x ∈ tf, x.2.1 ≠ [] ∧ sp = x.2 := by
+    intro sp hsp
+    unfold livePoints at hsp
+    obtain ⟨x, hx, rfl⟩ := List.mem_map.mp hsp
+    obtain ⟨hx1, hx2⟩ := List.mem_filter.mp hx
+    refine ⟨x, hx1, ?_, rfl⟩
+    intro e; simp [e] at hx2
+  rcases List.mem_append.mp h with h | h
+  · obtain ⟨sp, hsp, h2⟩ := List.mem_flatMap.mp h
+    obtain ⟨e, _, rfl⟩ := List.mem_map.mp h2
+    obtain ⟨x, hx, hne, rfl⟩ := hl sp hsp
+    exact ⟨x, hx, hne, rfl, rfl⟩
+  · obtain ⟨te, _, h2⟩ := List.mem_filterMap.mp h
+    obtain ⟨sp, hsp, rfl⟩ := Option.map_eq_some_iff.mp h2
+    obtain ⟨x, hx, hne, rfl⟩ := hl sp (List.mem_of_getElem? hsp)
+    exact ⟨x, hx, hne, rfl, rfl⟩
+
+/-- `labels_merged`: the label of an issue found at a time point, for ALL files.  Let `L` be the time-point
+contributions (rows without their Delay groups, then the moved Delay groups) sorted by effective time (`sortT`,
+so all contributions with one effective time are consecutive).  The issue was found on the `","`-join of a maximal
+run of equal times of `L` starting at some index `n` (its predecessor, if any, has another time), and it is
+labelled with the file row of the FIRST contribution of that run, `L[n]` — whichever row of the run the offending
+tag is written in.  This is the proved form of finding C07-merged-row-label; `labels_point_partial` is the case of
+runs of length 1. -/
+theorem labels_merged (cfg : Cfg) (T : List Row) (out : List Issue) (h : validate cfg T = .ok out) :
+    ∀ i ∈ out, ∀ p, (i.src = .point p ∨ i.src = .temporal p) →
+      ∃ n y k r, (sortT (splitFrame cfg ((frame cfg T).map (·.2))))[n]? = some y ∧
+        (match n with
+         | 0 => True
+         | m + 1 => ∃ z, (sortT (splitFrame cfg ((frame cfg T).map (·.2))))[m]? = some z ∧ z.1 ≠ y.1) ∧
+        i.text ≠ [] ∧
+        i.text = joinWith [','] ((((sortT (splitFrame cfg ((frame cfg T).map (·.2)))).drop n).takeWhile
+          fun z => z.1 == y.1).map (·.2.1)) ∧
+        ((frame cfg T).map (·.2))[y.2.2]? = some r ∧ T[k]? = some r ∧ i.row = some (k + cfg.rowAdj) := by
+  obtain ⟨ol, rfl, -, -⟩ := validate_ok h
+  intro i hi p hsrc
+  unfold assemble at hi
+  have hi := (sortIssues_perm _).mem_iff.mp hi
+  simp only [List.mem_append] at hi
+  rcases hi with (hi | hi) | hi
+  · exfalso
+    unfold structIssues at hi
+    simp only [List.mem_append] at hi
+    rcases hi with (hi | hi) | hi
+    · obtain ⟨e', _, rfl⟩ := List.mem_map.mp hi; rcases hsrc with e | e <;> simp [mk] at e
+    · obtain ⟨kr, _, h2⟩ := List.mem_flatMap.mp hi
+      obtain ⟨j, name, keys, v, _, _, _, _, rfl⟩ := mem_keyIssuesFrom h2
+      rcases hsrc with e | e <;> simp [mk] at e
+    · obtain ⟨e', _, rfl⟩ := List.mem_map.mp hi; rcases hsrc with e | e <;> simp [mk] at e
+  · exfalso
+    unfold unorderedIssues at hi
+    split at hi
+    · simp at hi; subst hi; rcases hsrc with e | e <;> simp [mk] at e
+    · cases hi
+  · obtain ⟨j, hj, rfl⟩ := List.mem_map.mp hi
+    unfold core at hj
+    rcases List.mem_append.mp hj with hj | hj
+    · exfalso
+      obtain ⟨res, hres, hi'⟩ := List.mem_flatMap.mp hj
+      unfold rowPhase at hres
+      obtain ⟨⟨q, r⟩, _, rfl⟩ := List.mem_map.mp hres
+      cases mem_checkRow hi' with
+      | cell c name y e hc he hi'' => subst hi''; rcases hsrc with e | e <;> simp [relabel, mk] at e
+      | row e he hi'' => subst hi''; rcases hsrc with e | e <;> simp [relabel, mk] at e
+    · split at hj
+      · obtain ⟨x, hx, hne, hrow, htext⟩ := mem_pointPass_nonempty hj
+        obtain ⟨n, hn⟩ := List.getElem?_of_mem hx
+        unfold timeFrame at hn
+        rw [mergeF_eq_blankOr] at hn
+        obtain ⟨y, hy, h1, h2, h3⟩ := blankOr_get none _ n x hn
+        obtain ⟨h4, h5⟩ := h3 hne
+        have hlen := splitFrame_origs cfg _ y ((sortT_perm _).mem_iff.mp (List.mem_of_getElem? hy))
+        have hr : ((frame cfg T).map (·.2))[y.2.2]? = some ((frame cfg T).map (·.2))[y.2.2] :=
+          List.getElem?_eq_getElem hlen
+        have hpr : (y.2.2, ((frame cfg T).map (·.2))[y.2.2]) ∈ enumF 0 ((frame cfg T).map (·.2)) := by
+          rw [mem_enumF]; simpa using hr
+        obtain ⟨k, hk, hlab⟩ := frame_pos _ _ _ hpr
+        refine ⟨n, y, k, _, hy, ?_, ?_, ?_, hr, (frame_mem cfg T k _).mp hk, ?_⟩
+        · cases n with
+          | zero => trivial
+          | succ m => exact h5
+        · simpa [relabel, htext] using hne
+        · have hd : (sortT (splitFrame cfg ((frame cfg T).map (·.2)))).drop n =
+              y :: (sortT (splitFrame cfg ((frame cfg T).map (·.2)))).drop (n + 1) := by
+            obtain ⟨hlt, hget⟩ := List.getElem?_eq_some_iff.mp hy
+            rw [← hget]; exact (List.drop_eq_getElem_cons hlt)
+          simp only [relabel, htext, h4]
+          rw [hd, runText_eq]
+        · rw [← h2] at hlab
+          simpa [relabel, hrow] using hlab
+      · cases hj
+
+/-! ### `from_hed_strings`: the cells' trees side by side vs. the tree of the joined text
+
+The general statement (for cells with balanced parentheses `concatTrees cells = joinedTree cells`) is NOT proved
+here (the tokenizer merges delimiter runs across the cell boundary); it is evaluated by the driver on every
+generated row (`c07.concat`).  Proved: an instance, and that it fails for unbalanced cells — the reason why a row
+that gets row-level checks although a cell is malformed is outside the closed fragment. -/
+
+/-- `(A,B)` and `C`: the same tree either way -/
+theorem concat_join_example : sameTree [['(', 'A', ',', 'B', ')'], ['C']] = true ∧
+    sameTree [['A'], ['(', 'B', ',', '(', 'C', ')', ')'], ['D', ',', 'E']] = true := by decide
+
+/-- `concat_join_counterexample`: cells `(A` and `B)`: each cell alone is unbalanced and has no children, so the row
+string has NO children, while the joined text `(A,B)` parses to one group. -/
+theorem concat_join_counterexample :
+    (concatTrees [['(', 'A'], ['B', ')']]).length = 0 ∧ (joinedTree [['(', 'A'], ['B', ')']]).length = 1 ∧
+    sameTree [['(', 'A'], ['B', ')']] = false := by decide
+
 end HedVerif.C07
